@@ -319,7 +319,7 @@ class C02(Check):
     def run_case(self, case):
         src, npairs = self.source(case)
         res = driver.run_ms(src, env={"MSCRIPT_VERIF_TYPED_PRINT": "1"})
-        if res.exit != 0 and "Did not compile" in res.err:
+        if driver.compile_rejected(res):
             return {"outcome": "rejected", "nontrivial": False, "tags": ["rejected", case[0]]}
         viol = []
         detail = {"files": {"x.ms": src}, "res": res.brief()}
